@@ -235,88 +235,3 @@ def module_bound_shape(f):
     return kinds == {"some", "none"}, "branches %s" % sorted(kinds)
 
 
-def first_match_pipeline(f):
-    """dedup_insert_type as a pipeline: (source, predicate, projection) of `first element of source satisfying predicate with
-    Some(projection)`; recognises the for/if/if-let/return form and the iterator forms filter+find_map / filter_map+next / find_map"""
-    inst = f["sig"]["params"][1][0]
-    st = f["body"][1]
-    # for ty in &SRC { if P { if let Some(id) = PROJ { return Some(id); } } } None
-    if len(st) == 2 and st[0][0] == "expr" and st[0][1][0] == "for" and show_stmt(st[1]) == "None":
-        loop = st[0][1]
-        v = loop[1][1] if loop[1][0] == "p_ident" else None
-        src = show(loop[2]).lstrip("&")
-        conds, proj = [], None
-        body = loop[3]
-        while True:
-            inner = body[1]
-            if len(inner) != 1 or inner[0][0] != "expr":
-                return None
-            e = inner[0][1]
-            if e[0] == "if" and e[3] is None and e[1][0] != "let":
-                conds.append(show(e[1]).replace(v + ".", "_."))
-                body = e[2]
-                continue
-            if e[0] == "if" and e[3] is None and e[1][0] == "let" and e[1][1][0] == "p_ts" and e[1][1][1] == "Some":
-                idv = e[1][1][2][0][1]
-                if [show_stmt(x) for x in e[2][1]] == ["return Some(%s);" % idv]:
-                    proj = show(e[1][2]).replace(v + ".", "_.")
-                    break
-            return None
-        return (src, conds, proj)
-    # iterator forms
-    if len(st) == 1 and st[0][0] == "expr":
-        e = unblock(st[0][1])
-        if e[0] == "mcall" and e[2] == "find_map" and e[3][0][0] == "closure":
-            proj = show(e[3][0][2]).replace(e[3][0][1][0][1] + ".", "_.")
-            r = e[1]
-            conds = []
-            while r[0] == "mcall" and r[2] == "filter" and r[3][0][0] == "closure":
-                conds.insert(0, show(r[3][0][2]).replace(r[3][0][1][0][1] + ".", "_."))
-                r = r[1]
-            if r[0] == "mcall" and r[2] == "iter":
-                return (show(r[1]), conds, proj)
-        if e[0] == "mcall" and e[2] == "next" and e[1][0] == "mcall" and e[1][2] == "filter_map":
-            r = e[1]
-            proj = show(r[3][0][2]).replace(r[3][0][1][0][1] + ".", "_.")
-            conds = []
-            r = r[1]
-            while r[0] == "mcall" and r[2] == "filter" and r[3][0][0] == "closure":
-                conds.insert(0, show(r[3][0][2]).replace(r[3][0][1][0][1] + ".", "_."))
-                r = r[1]
-            if r[0] == "mcall" and r[2] == "iter":
-                return (show(r[1]), conds, proj)
-    return None
-
-
-def dedup_lookup_shape(f):
-    inst = f["sig"]["params"][1][0]
-    p = first_match_pipeline(f)
-    if p is not None:
-        return p == ("self.module.types_global_values", ["_.is_type_identical(%s)" % inst], "_.result_id")
-    return _dedup_lookup_shape_old(f)
-
-
-def _dedup_lookup_shape_old(f):
-    inst = f["sig"]["params"][1][0]
-    st = f["body"][1]
-    if len(st) != 2 or st[0][0] != "expr" or st[0][1][0] != "for":
-        return False
-    loop = st[0][1]
-    if show(loop[2]) != "&self.module.types_global_values" or loop[1][0] != "p_ident":
-        return False
-    ty = loop[1][1]
-    body = loop[3][1]
-    if len(body) != 1 or body[0][1][0] != "if":
-        return False
-    i1 = body[0][1]
-    if show(i1[1]) != "%s.is_type_identical(%s)" % (ty, inst) or i1[3] is not None:
-        return False
-    inner = i1[2][1]
-    if len(inner) != 1 or inner[0][1][0] != "if":
-        return False
-    i2 = inner[0][1]
-    if show(i2[1]) != "let Some(id) = %s.result_id" % ty:
-        return False
-    if [show_stmt(x) for x in i2[2][1]] != ["return Some(id);"]:
-        return False
-    return show_stmt(st[1]) == "None"
